@@ -15,7 +15,9 @@ ORACLE_STREAMS = []
 
 def run(ctx):
     ctx.rule = ("cases = `map IMPL SIZE` + seeded random sequences of put/get/rm/count/foreach (complete, abandoned after "
-                "k callbacks, trie: with prefix)/nadd/ndel/ndel2/destroy over key sets drawn from: prefix-closed trees over a "
+                "k callbacks, trie: with prefix)/foreachs (traversal whose callback performs scripted rm/put/get/count on the map - on the key it "
+                "is shown or on other keys - at chosen callback numbers, then continues or stops; cases inside C18's finding classes "
+                "K_C18_sl / K_C18_trie_split dropped on the model's transcript)/nadd/ndel/ndel2/destroy over key sets drawn from: prefix-closed trees over a "
                 "2-3 letter alphabet plus bytes >= 0x80, prefix chains, single bytes, long keys with long shared stems, "
                 "branching points with the stem absent; get/rm also on absent keys sharing structure (prefixes, "
                 "extensions, siblings); hashtable sizes 0..1000 (8..1024 buckets, collisions); a case is non-trivial if it "
@@ -27,4 +29,5 @@ def run(ctx):
                 "LeakSanitizer, the trie without (trie_destroy leaks its root/valueless nodes and notifier records, D82, "
                 "outside C17)")
     mapcheck.run(ctx, "C17", STREAMS, mapgen.gen_c17, mapgen.oracle_c17, 1500, 30000,
-                 oracle_streams=ORACLE_STREAMS, noracle=(700, 10000))
+                 oracle_streams=ORACLE_STREAMS, noracle=(700, 10000),
+                 gen_outside=["K_C18_sl", "K_C18_trie_split"])
